@@ -63,6 +63,8 @@ pub fn scenario(ch: &mut Chooser, thorough: bool) -> Exec {
     let ldrop = *ch.of("listener_dropped_at_round", if thorough { &[None, Some(1), Some(2), Some(3), Some(4)][..] } else { &[None, Some(1), Some(3)][..] });
     let rebind = ldrop.is_some() && ch.flag("listener_rebinds_two_rounds_later");
     let unknown_target = ch.flag("extra_connect_to_unknown_address_and_closed_port");
+    let pool = ch.flag("five_single_shot_accept_calls_pending_at_once");
+    let two_syns = pool && ch.flag("two_held_syns_handed_over_in_one_round");
     // a local connector whose SYN reaches the host in the very step in which the listener is
     // bound again races with that bind inside the step: the property leaves the order open
     if rebind && (0..nconn).any(|i| kinds[i] != Where::X && Some(starts[i] + 1) == ldrop.map(|d| d + 2)) {
@@ -150,6 +152,39 @@ pub fn scenario(ch: &mut Chooser, thorough: bool) -> Exec {
                 if let Some(l) = listener.clone() {
                     let st_a = st_l.clone();
                     accept_task = Some(tokio::task::spawn_local(async move {
+                        if pool {
+                            // five accept() calls pending on the one listener at the same time,
+                            // each takes a single connection (a worker per connection)
+                            let one = |l: Rc<TcpListener>, st_a: Rc<RefCell<St>>| async move {
+                                match l.accept().await {
+                                    Ok((mut s, peer)) => {
+                                        let la = s.local_addr().unwrap();
+                                        let idx = {
+                                            let mut g = st_a.borrow_mut();
+                                            g.accepted.push((None, la, peer));
+                                            g.accepted.len() - 1
+                                        };
+                                        let st_r = st_a.clone();
+                                        tokio::task::spawn_local(async move {
+                                            let mut b = [0u8; 1];
+                                            if let Ok(1) = s.read(&mut b).await {
+                                                st_r.borrow_mut().accepted[idx].0 = Some(b[0]);
+                                            }
+                                            loop {
+                                                if st_r.borrow().drop_streams {
+                                                    break;
+                                                }
+                                                tokio::time::sleep(std::time::Duration::from_millis(1)).await;
+                                            }
+                                            drop(s);
+                                        });
+                                    }
+                                    Err(e) => st_a.borrow_mut().accept_errs.push(errk(&e)),
+                                }
+                            };
+                            tokio::join!(one(l.clone(), st_a.clone()), one(l.clone(), st_a.clone()), one(l.clone(), st_a.clone()), one(l.clone(), st_a.clone()), one(l.clone(), st_a.clone()));
+                            return;
+                        }
                         loop {
                             match l.accept().await {
                                 Ok((mut s, peer)) => {
@@ -336,28 +371,41 @@ pub fn scenario(ch: &mut Chooser, thorough: bool) -> Exec {
         if !msgs.is_empty() {
             let syn_pos: Vec<usize> = (0..msgs.len()).filter(|&i| msgs[i].contains("SYN")).collect();
             let k = if !syn_pos.is_empty() && !suffix { syn_pos[ch.choose("deliver_which_syn", syn_pos.len())] } else { 0 };
-            obs.push(format!("round {r}: deliver {}", msgs[k]));
-            deliver_nth(&sim, l_ip, x_ip, k);
-            if msgs[k].contains("SYN") {
-                // which connector's SYN is it? the n-th SYN on the link belongs to the n-th
-                // in-flight connector in send order
-                let nth = syn_pos.iter().position(|&p| p == k).unwrap();
-                if nth < syn_in_flight.len() {
-                    let c = syn_in_flight.remove(nth);
-                    let port_ok = c < nconn; // connector nconn targets port 81
-                    let bind_matches = !lo_bind; // a remote SYN never matches a localhost bind
-                    if listener_up && port_ok && bind_matches {
-                        queue.push(c);
-                        arrival_order.push(c);
-                    } else {
-                        expected_refused[c] = true;
+            // with `two_syns` a second held SYN is handed over in the same round; messages
+            // scheduled together arrive in link-queue order
+            let mut batch = vec![k];
+            if two_syns && !suffix && msgs[k].contains("SYN") {
+                if let Some(&other) = syn_pos.iter().find(|&&p| p != k) {
+                    batch.push(other);
+                }
+            }
+            batch.sort();
+            let mut removed = 0;
+            for &k in &batch {
+                obs.push(format!("round {r}: deliver {}", msgs[k]));
+                deliver_nth(&sim, l_ip, x_ip, k);
+                if msgs[k].contains("SYN") {
+                    // which connector's SYN is it? the n-th SYN on the link belongs to the n-th
+                    // in-flight connector in send order
+                    let nth = syn_pos.iter().position(|&p| p == k).unwrap() - removed;
+                    if nth < syn_in_flight.len() {
+                        let c = syn_in_flight.remove(nth);
+                        removed += 1;
+                        let port_ok = c < nconn; // connector nconn targets port 81
+                        let bind_matches = !lo_bind; // a remote SYN never matches a localhost bind
+                        if listener_up && port_ok && bind_matches {
+                            queue.push(c);
+                            arrival_order.push(c);
+                        } else {
+                            expected_refused[c] = true;
+                        }
                     }
                 }
             }
             // deliver every non-SYN message as well (data, FIN, RST): FIFO
             let rest = link_msgs(&sim, l_ip, x_ip).len();
             for i in 0..rest {
-                if i != k && !msgs.get(i).map(|m| m.contains("SYN")).unwrap_or(false) {
+                if !batch.contains(&i) && !msgs.get(i).map(|m| m.contains("SYN")).unwrap_or(false) {
                     deliver_nth(&sim, l_ip, x_ip, i);
                 }
             }
@@ -513,7 +561,7 @@ pub fn scenario(ch: &mut Chooser, thorough: bool) -> Exec {
     if let Some(v) = violation.as_mut() {
         v.sig = v.clause.to_string();
         v.scenario = format!(
-            "c12 tier={} v6={v6} lo_bind={lo_bind} local={local_kind:?} starts={starts:?} cancels={cancels:?} gate={gate} ldrop={ldrop:?} rebind={rebind} probes={unknown_target}",
+            "c12 tier={} v6={v6} lo_bind={lo_bind} local={local_kind:?} starts={starts:?} cancels={cancels:?} gate={gate} ldrop={ldrop:?} rebind={rebind} probes={unknown_target} pool={pool} two_syns={two_syns}",
             if thorough { "thorough" } else { "quick" }
         );
         v.actions = obs.clone();
